@@ -268,6 +268,40 @@ def run_shard(spec_, res):
             judge(res, p.read(), build.norm(snapshot.snap_project(p), "before"), {"type": T, "fresh_in_place": True}, f"project-fresh-in-place:{T}")
         except Exception as e:
             res.violation(f"C03:save-raises:{T}:{workload.exc_key(e)}", f"saving a fresh {T} after in-place payload edits raised {e!r}", {"type": T})
+    # order-of-operations cases: a pattern attached while still untouched and sized afterwards; one Sample object in two slots
+    if spec_["shard"] == 1 % max(1, spec_["n_shards"]):
+        import random as _r4
+        from rv.note import NOTECMD
+        rr = _r4.Random(seed + 41)
+        for k in range(8):
+            try:
+                p = api.Project()
+                q = api.Pattern()
+                p.attach_pattern(q) if k % 2 == 0 else p.__iadd__(q)
+                q.lines, q.tracks = rr.randint(1, 20), rr.randint(1, 6)
+                if k % 4 < 2:
+                    q.tracks, q.lines = q.tracks, q.lines
+                for ln in range(q.lines):
+                    for tr in range(q.tracks):
+                        n = q.data[ln][tr]
+                        n.note, n.vel, n.module = NOTECMD(1 + (ln * 7 + tr) % 100), (ln + tr) % 130, tr + 1
+                res.count("patterns_sized_after_attaching")
+                judge(res, p.read(), build.norm(snapshot.snap_project(p), "before"), {"pattern_sized_after_attach": k}, "project-pattern-sized-after-attach", obj=p)
+            except Exception as e:
+                res.violation(f"C03:save-raises:pattern-sized-after-attach:{workload.exc_key(e)}", f"pattern attached untouched, sized afterwards, filled, saved: {e!r}", {"k": k})
+        for k in range(6):
+            try:
+                smp = api.m.Sampler()
+                s = smp.Sample()
+                s.data, s.format, s.channels, s.rate = bytes(range(40 + k)), smp.Format.int8, smp.Channels.mono, 8000 + k
+                a, b = rr.sample(range(128), 2)
+                smp.samples[a] = s
+                smp.samples[b] = s           # the very same Sample object in a second slot
+                res.count("samplers_with_one_sample_object_in_two_slots")
+                syn = api.Synth(smp)
+                judge(res, syn.read(), build.norm(snapshot.snap_synth(syn), "before"), {"shared_sample": [a, b]}, "synth-shared-sample-object")
+            except Exception as e:
+                res.violation(f"C03:save-raises:shared-sample:{workload.exc_key(e)}", f"sampler holding one Sample object in two slots: {e!r}", {"k": k})
     # effects inside effects: a Sampler whose effect synth holds a Sampler that has an effect of its own, directly or through
     # the project of a MetaModule
     if spec_["shard"] == 0:
